@@ -3,7 +3,7 @@
    theorems about ALL schedules of the job machine and ALL scripts apply to what the
    implementation was seen to do. *)
 From Verif Require Import Lib.Base Lib.Sched Lib.Reach Model.C02_Scheduler Model.C02_Script.
-From Verif Require Import Proofs.C02 Proofs.C02_Script Proofs.C02_ScriptExact Proofs.C02_ScriptMore.
+From Verif Require Import Proofs.C02 Proofs.C02_Script Proofs.C02_ScriptExact Proofs.C02_ScriptMore Proofs.C02_ScriptCancel.
 From Verif Require Import Check.C02.
 
 Lemma list_eqb_N : forall a b, list_eqb N.eqb a b = true -> a = b.
@@ -171,18 +171,18 @@ Proof.
   - rewrite Hr; exact Hrun.
 Qed.
 
-(* "cancelled clearly before its time never runs", for a checked observation of a script that ends
-   before the job's time *)
+(* "cancelled clearly before its time never runs", for a checked observation: a CancelJob call
+   issued at an instant before the job's time was seen to return nil => no start was seen *)
 Lemma checked_cancel_before : forall c sc os, agree c = true -> c_body c = Timed sc os ->
-    sc_kind sc = OneOff -> sc_variant sc = Fixed -> sc_end sc < sc_due sc ->
+    sc_kind sc = OneOff -> sc_variant sc = Fixed ->
     forall ob, In ob os ->
-      (exists i cl, nth_error (sc_calls sc) i = Some cl /\ cl_kind cl = KCancel
+      (exists i cl, nth_error (sc_calls sc) i = Some cl /\ cl_kind cl = KCancel /\ cl_at cl < sc_due sc
                     /\ nth_error (o_calls (ob_out ob)) i = Some (Ret Nil)) ->
       o_starts (ob_out ob) = [].
 Proof.
-  intros c sc os Ha Hb Hk Hv Hend ob Hob [i [cl [H1 [H2 H3]]]].
+  intros c sc os Ha Hb Hk Hv ob Hob [i [cl [H1 [H2 [H3 H4]]]]].
   destruct (obs_match_final _ _ (agree_timed c sc os Ha Hb ob Hob)) as [t [Ht [_ [Hcalls [Hs _]]]]].
   rewrite Hs.
-  apply (script_cancel_before_due sc Hk Hv Hend t Ht).
-  exists i, cl. repeat split; try assumption. eapply observed_ret_nil; eauto.
+  apply (script_cancelled_before_never_runs sc Hk Hv i cl H1 H2 H3 t Ht).
+  eapply observed_ret_nil; eauto.
 Qed.
